@@ -48,7 +48,8 @@ S3 = Scenario(
     ["wire.connect_pin", "wire.disconnect_pin", "wire.disconnect_pins_from",
      "wire.disconnect_pins_from.set", "wire.pins=", "cable.wires=", "cable.create_wire",
      "cable.add_wire", "cable.remove_wire", "cable.remove_wires_from", "cable.remove_wires_from.set",
-     "definition.remove_cable", "definition.add_cable"],
+     "definition.remove_cable", "definition.add_cable", "definition.cables=", "definition.remove_cables_from",
+     "definition.remove_cables_from.set"],
     limits={"positions": (None, 0), "bulk_max": 2, "proxy_pairs": _valid_proxies_plus_one, "names": (None, "a")},
     depth={"quick": 2, "thorough": 3},
     note="connect/disconnect with inner pins, stored outer pins and proxies; wire/cable reorder")
@@ -59,7 +60,7 @@ S4 = Scenario(
      "definition.remove_child", "definition.remove_children_from",
      "definition.remove_children_from.set", "definition.children=", "instance.reference=",
      "instance.reference=None", "instance.del_reference", "definition.remove_port",
-     "port.remove_pin", "netlist.top_instance=", "netlist.top_instance=None"],
+     "port.remove_pin", "netlist.top_instance=", "netlist.top_instance=None", "netlist.set_top_instance.name"],
     limits={"positions": (None, 0), "bulk_max": 2, "names": (None, "a")},
     depth={"quick": 2, "thorough": 3},
     note="children, re-pointing, port removal that implicitly disconnects, top instance")
@@ -157,8 +158,8 @@ def naming_scenarios(with_clone=True):
 S8 = Scenario(
     "S8-data-and-top", seeds.seed_children,
     ["element.name=", "element.del_name", "element.setitem", "element.delitem", "element.pop",
-     "netlist.top_instance=", "netlist.top_instance=None", "definition.create_child",
-     "definition.create_port", "definition.create_cable"],
+     "netlist.top_instance=", "netlist.top_instance=None", "netlist.set_top_instance", "netlist.set_top_instance.name",
+     "definition.create_child", "definition.create_port", "definition.create_cable"],
     limits={"positions": (None,), "names": (None, "a"), "keys": (".NAME", "k"), "counts": (None, 1),
             "elem_kinds": "NLDX"},
     depth={"quick": 2, "thorough": 3},
